@@ -4,7 +4,7 @@ import json, subprocess, os
 V = os.path.dirname(os.path.dirname(os.path.abspath(__file__)))
 hook = subprocess.check_output(["git", "-C", "/repo", "log", "--format=%H", "--grep=verif_hooks feature", "-n", "1"], text=True).strip()
 
-RUN = "generated graph x option x schedule cases (proptest, tapes of u16 with shrinking) run under a single-threaded controlled executor / stream consumer that owns the schedule; "
+RUN = "every schedule of every option combination on all graphs with n <= 2 (quick) / n <= 3 (thorough) functions enumerated exhaustively, plus generated graph x option x schedule cases (proptest, tapes of u16 with shrinking; sizes to 320 functions; user futures that complete at once / wake themselves; one run in five inside tokio task polls with a generated cooperative-budget position) under a single-threaded controlled executor / stream consumer that owns the schedule; "
 TB = "trusted base: the harness's own model (conflict relation, closures, reference algorithms), its controlled executor (gates + counting waker), proptest, rustc; schedules at poll granularity"
 P = {
  "C01": ("exploration", RUN + "oracle: trace invariant 'no two functions with conflicting declared access in flight together', relation computed from the generated access sets only", "§3 C01"),
